@@ -442,16 +442,20 @@ def shrink(it, fails):
     return cur
 
 
-def correspond(binpath, items, tag):
+def correspond(binpath, items, tag, extra=()):
     """F.correspond with two differences that only concern resources: the cases are dealt to the coqc
     shards in a strided order (so that the few long slices do not end up in one multi-megabyte file) and
     in smaller files; a shard whose coqc process died (out of memory on a loaded machine) is retried once
-    in small pieces.  Verdicts are per case and identical to F.correspond's."""
+    in small pieces.  Verdicts are per case and identical to F.correspond's.
+    extra = [(item, observation line)] already run elsewhere (the release-build twins of W cases): they join the
+    same coqc batch; their indices in the returned list continue after those of `items`."""
     rc, outl, err = F.run_bin_parallel(binpath, [it["line"] for it in items])
     if rc != 0 or len(outl) != len(items):
         return outl, [], [("harness", f"rc={rc} lines={len(outl)}/{len(items)} stderr={err[-1500:]}")]
+    if callable(extra):
+        extra = extra(outl)
     terms = []
-    for it, o in zip(items, outl):
+    for it, o in list(zip(items, outl)) + list(extra):
         try:
             terms.append(f"({it['coq']}, {F.zlistlist(F.norm_obs_line(o))})")
         except ValueError:
@@ -495,10 +499,48 @@ def main(rep, tier, seed):
     items, n_grid = gen_cases(rng, tier)
     w_items = gen_w_cases(rng.fork("wide"), tier)
     items = corpus + items + w_items
-    outl, bad, errors = correspond(binpath, items, "c10")
     w_idx = [i for i, it in enumerate(items) if it["kind"] == "W"]
     o_idx = [i for i, it in enumerate(items) if it["kind"] != "W"]
-    # the V/B/Z cases in the release and overflow-checked-release profiles: their observations (incl. the
+    # The W cases depend on the build profile only through overflow: an overflowing `+` panics with overflow checks
+    # and wraps without.  dev build: compared with the model in Checked mode.  release build: a case that did not
+    # panic in the dev build must give the dev observation (no overflow = nothing for the profile to change; a
+    # difference is reported), a case that did is compared with the model in Wrapping mode (its mode-1 twin joins
+    # the same coqc batch).  relchk (optimised, overflow checks on, debug assertions off) must behave as dev, except
+    # I24/I48 whose operators are gated on cfg!(debug_assertions): after a dev panic, as release.
+    rel_items, rel_src, outl_rel, outl_chk = [], [], [], []
+    wstats = {"release_cases": 0, "release_cases_vs_wrapping_model": 0, "release_differences": 0, "relchk_cases": 0, "relchk_differences": 0}
+    bin_rel = bin_chk = None
+    if w_idx:
+        okr, logr, bin_rel = F.harness_build("c10", profile="release")
+        okc, logc, bin_chk = F.harness_build("c10", profile="relchk")
+        if not okr or not okc:
+            rep.violation("profile_harness_build", {"kind": "harness could not be built in the release / relchk profile",
+                                                    "log": (logr if not okr else logc)[-3000:]}, no_input=True)
+            bin_rel = bin_chk = None
+
+    def dev_panicked(o):
+        return o.split(";")[1:2] != ["7"]
+
+    def release_twins(outl_dev):
+        if not bin_rel:
+            return []
+        rc, o_rel, err = F.run_bin_parallel(bin_rel, [items[i]["line"] for i in w_idx])
+        if rc != 0 or len(o_rel) != len(w_idx):
+            rep.violation("profile_release_run", {"kind": "release harness run incomplete", "log": err[-1500:]}, no_input=True)
+            return []
+        outl_rel.extend(o_rel)
+        for j, i in enumerate(w_idx):
+            if dev_panicked(outl_dev[i]):
+                rel_items.append(with_mode(items[i], 1))
+                rel_src.append(j)
+        return [(it, o_rel[j]) for it, j in zip(rel_items, rel_src)]
+
+    outl, bad_all, errors = correspond(binpath, items, "c10", extra=release_twins)
+    bad = [i for i in bad_all if i < len(items)]
+    bad_rel = [i - len(items) for i in bad_all if i >= len(items)]
+    wstats["release_cases"] = len(outl_rel)
+    wstats["release_cases_vs_wrapping_model"] = len(rel_items)
+    # the V/B/I/Z cases in the release and overflow-checked-release profiles: their observations (incl. the
     # length-mismatch panics, which are plain assert!s) must not depend on the build profile
     pdiffs, perrs = ([], [])
     if not errors:
@@ -510,49 +552,47 @@ def main(rep, tier, seed):
         rep.violation(f"profile_{prof}_case{idx}", {
             "kind": f"the crate behaves differently in the {prof} build profile than in the dev profile (the proved model has no profile dependence; e.g. a length check that only exists under debug assertions)",
             "harness_line": items[idx]["line"], "dev_observations": outl[idx], f"{prof}_observations": line})
-    # the W cases depend on the profile (an overflowing `+` panics with overflow checks and wraps without): the
-    # release build is compared with the model in Wrapping mode; the overflow-checked release build (relchk) must
-    # behave as the dev build, except for I24/I48 whose operators are gated on cfg!(debug_assertions): as release
-    rel_items, outl_rel, bad_rel, wstats = [], [], [], {"release_cases": 0, "relchk_cases": 0, "relchk_differences": 0}
-    bin_rel = None
-    if not errors and w_idx:
-        okr, logr, bin_rel = F.harness_build("c10", profile="release")
-        okc, logc, bin_chk = F.harness_build("c10", profile="relchk")
-        if not okr or not okc:
-            rep.violation("profile_harness_build", {"kind": "harness could not be built in the release / relchk profile",
-                                                    "log": (logr if not okr else logc)[-3000:]}, no_input=True)
+    if not errors and outl_rel:
+        shown = 0
+        for j, i in enumerate(w_idx):
+            if not dev_panicked(outl[i]) and outl_rel[j] != outl[i]:
+                wstats["release_differences"] += 1
+                if shown < 3:
+                    shown += 1
+                    rep.violation(f"profile_release_case{i}", {
+                        "kind": "an in-place operation that completes without a panic in the dev build (where it agrees with the model) gives "
+                                "a different result in the release build",
+                        "case": case_fields(with_mode(items[i], 1)), "harness_line": items[i]["line"],
+                        "dev_observations": outl[i], "release_observations": outl_rel[j],
+                        "replay": "./check.py C10 --replay <this file>   (release build against the Wrapping model)"})
+        rc, o_chk, err = F.run_bin_parallel(bin_chk, [items[i]["line"] for i in w_idx])
+        if rc != 0 or len(o_chk) != len(w_idx):
+            rep.violation("profile_relchk_run", {"kind": "relchk harness run incomplete", "log": err[-1500:]}, no_input=True)
         else:
-            rel_items = [with_mode(items[i], 1) for i in w_idx]
-            outl_rel, bad_rel, errs_rel = correspond(bin_rel, rel_items, "c10_rel")
-            errors = errors + [("release/" + n, m) for n, m in errs_rel]
-            wstats["release_cases"] = len(rel_items)
-            rc, outl_chk, err = F.run_bin_parallel(bin_chk, [items[i]["line"] for i in w_idx])
-            if rc != 0 or len(outl_chk) != len(w_idx):
-                rep.violation("profile_relchk_run", {"kind": "relchk harness run incomplete", "log": err[-1500:]}, no_input=True)
-            elif not errs_rel:
-                wstats["relchk_cases"] = len(w_idx)
-                shown = 0
-                for j, i in enumerate(w_idx):
-                    # I24/I48: no panic in the dev build = no profile can differ; otherwise the operators wrap as in
-                    # release, unless the representation-type `+` itself overflows (possible only for out-of-range
-                    # inner values, which a saturating float conversion of a huge product yields): that is rustc's
-                    # overflow panic, in this profile only, and the model has no such third mode - status accepted
-                    as_rel = items[i]["fmt"] in W_RELCHK_AS_RELEASE and outl[i].split(";")[1:2] != ["7"]
-                    expect = outl_rel[j] if as_rel else outl[i]
-                    if as_rel and outl_chk[j] != expect and outl_chk[j].split(";")[:2] == [expect.split(";")[0], "8 1"]:
-                        wstats["relchk_only_representation_overflow_panics"] = wstats.get("relchk_only_representation_overflow_panics", 0) + 1
-                        continue
-                    if outl_chk[j] != expect:
-                        wstats["relchk_differences"] += 1
-                        if shown < 3:
-                            shown += 1
-                            rep.violation(f"profile_relchk_case{i}", {
-                                "kind": "in the optimised build with overflow checks (relchk) an in-place operation behaves neither as in the "
-                                        "build it must agree with (dev for the primitive formats, release for I24/I48) nor as the model",
-                                "case": case_fields(items[i]), "harness_line": items[i]["line"],
-                                "expected_observations (" + ("release" if as_rel else "dev") + " build)": expect,
-                                "relchk_observations": outl_chk[j],
-                                "replay": f"echo '<harness_line>' | harness/target/relchk/c10"})
+            outl_chk = o_chk
+            wstats["relchk_cases"] = len(w_idx)
+            shown = 0
+            for j, i in enumerate(w_idx):
+                # I24/I48: no panic in the dev build = no profile can differ; otherwise the operators wrap as in
+                # release, unless the representation-type `+` itself overflows (possible only for out-of-range
+                # inner values, which a saturating float conversion of a huge product yields): that is rustc's
+                # overflow panic, in this profile only, and the model has no such third mode - status accepted
+                as_rel = items[i]["fmt"] in W_RELCHK_AS_RELEASE and dev_panicked(outl[i])
+                expect = outl_rel[j] if as_rel else outl[i]
+                if as_rel and outl_chk[j] != expect and outl_chk[j].split(";")[:2] == [expect.split(";")[0], "8 1"]:
+                    wstats["relchk_only_representation_overflow_panics"] = wstats.get("relchk_only_representation_overflow_panics", 0) + 1
+                    continue
+                if outl_chk[j] != expect:
+                    wstats["relchk_differences"] += 1
+                    if shown < 3:
+                        shown += 1
+                        rep.violation(f"profile_relchk_case{i}", {
+                            "kind": "in the optimised build with overflow checks (relchk) an in-place operation behaves neither as in the "
+                                    "build it must agree with (dev for the primitive formats, release for I24/I48 after a dev panic) nor as the model",
+                            "case": case_fields(items[i]), "harness_line": items[i]["line"],
+                            "expected_observations (" + ("release" if as_rel else "dev") + " build)": expect,
+                            "relchk_observations": outl_chk[j],
+                            "replay": f"echo '<harness_line>' | harness/target/relchk/c10"})
     for name, msg in errors:
         rep.violation("correspondence_error_" + name.replace("/", "_"),
                       {"kind": "correspondence could not be evaluated", "where": name, "log": msg}, no_input=True)
@@ -622,7 +662,7 @@ def main(rep, tier, seed):
     wi = [i for i in w_idx if w_offgrid_unity(items[i])]
     if wi:
         samples.append(items[wi[0]]["line"][:300])
-    return finish(rep, info, len(items) + len(rel_items), nontriv, dist, samples, list(bad) + list(bad_rel))
+    return finish(rep, info, len(items) + len(outl_rel) + len(outl_chk), nontriv, dist, samples, list(bad) + list(bad_rel))
 
 
 def finish(rep, info, n, nontriv, dist, samples, bad=()):
@@ -647,8 +687,8 @@ def finish(rep, info, n, nontriv, dist, samples, bad=()):
                 "(1, 0, -1, 0.5, -0, 2, 1-ulp, 1+ulp) on ALL channels, special gains mixed per channel, random gains; zip_map_in_place with an "
                 "add_amp(scale_amp(g)) closure for g in 1, 0, -1, 0.5, random; add_in_place (plain, range ends, zero source); write; equilibrium; "
                 "map_in_place with offset_amp(k); one length mismatch}, samples from the boundary-structured set (MIN, MAX, equilibrium +-1, "
-                "+-2^k +-1, values off the float companion's grid, small, uniform), 1..3 frames; each W case in dev vs the Checked model, in release vs the "
-                "Wrapping model, and in relchk vs dev (I24/I48 with a dev panic: vs release); the 32/64-bit formats and I48/U48 get every gain pattern twice. "
+                "+-2^k +-1, values off the float companion's grid, small, uniform), 1..3 frames; each W case in dev vs the Checked model, in release vs the dev "
+                "observation when the dev build did not panic and vs the Wrapping model when it did, and in relchk vs dev (I24/I48 with a dev panic: vs release); the 32/64-bit formats and I48/U48 get every gain pattern twice. "
                 "non-trivial = N >= 2 and L not a multiple of N (the divisibility "
                 "test fails), or a store through a mutable view completed, or the two slices of a two-slice operation differ in length, or a W case whose "
                 "operation changed the destination or panicked, or an I case of odd length (the N = 2 boxed conversion fails and frees)",
